@@ -15,7 +15,15 @@ HAND_SEEDS = [
     b'[1,2,3] \x00',
     b'[1,2,3]\x00trailing',
     b'nul', b'tru', b'"abc', b'"abc\\', b'"\\u12', b'[1,', b'{"a"', b'{"a":', b'-', b'1e', b'\xef\xbb\xbf',
+    b'{"a":1,/* c */"b":2}', b'[1, // c\n 2]', b'{"a":1,/*', b'[0x1F]', b'0x', b'-inf', b'[1e999, 5]', b'-nan(1)', b'"\\uD83D\\u"',
 ]
+
+
+# tokens added to the repository's dictionary: things a parser might grow a taste for (comments, hex / inf / nan spellings the
+# C library's strtod understands, odd UTF-8), none of them JSON
+EXTRA_TOKENS = [b"/*", b"*/", b"//", b"0x", b"0X", b"0x1F", b"inf", b"-inf", b"nan", b"-nan(", b"Infinity", b"NaN", b"1e999", b"1e-999",
+                b"\\u", b"\\uD800", b"\\uDC00", b"\\u0000", b"\xef\xbb\xbf", b"\xc0\x80", b"\xed\xa0\x80", b"\x00", b"'", b"+1", b".5", b"1.",
+                b"-0", b"0E", b"e+", b"E-", b"\x7f", b"\xe2\x80\xa8", b"True", b"None", b"undefined"]
 
 
 def parse_plan(tier, quick_runs, thorough_runs, procs_quick=6, procs_thorough=14, target="fz_parse"):
